@@ -35,6 +35,7 @@ import (
 	"github.com/yandex/pandora/zverif/hutil"
 	"github.com/yandex/pandora/zverif/vs"
 	"go.uber.org/zap"
+	"os"
 )
 
 var (
@@ -250,6 +251,17 @@ func (r *run) decodeScenario(x *vs.X) func(end, msg string) error {
 		{"gun": map[string]any{"type": "http", "target": "127.0.0.1:81", "ssl": false}, "rps": map[string]any{"type": "const", "ops": 2, "duration": "1s"}, "startup": map[string]any{"type": "once", "times": 1}},
 		{"gun": map[string]any{"type": "http", "target": "127.0.0.1:82", "ssl": true}, "rps": map[string]any{"type": "once", "times": 3}, "startup": map[string]any{"type": "once", "times": 2}},
 	}
+	if r.cell.Pool == "decode-placeholders" {
+		// the same settings given through ${property:file#key} and ${env:NAME} placeholders (two property files)
+		_ = os.WriteFile("zv_c11_a.properties", []byte("# pool a\nother=1\nops=2\ntarget=127.0.0.1:81\n"), 0o644)
+		_ = os.WriteFile("zv_c11_b.properties", []byte("# pool b\ntimes=3\nother=2\ntarget=127.0.0.1:82\n"), 0o644)
+		os.Setenv("ZV_C11_DUR", "1s")
+		os.Setenv("ZV_C11_SSL", "true")
+		confs = []map[string]any{
+			{"gun": map[string]any{"type": "http", "target": "${property:zv_c11_a.properties#target}", "ssl": false}, "rps": map[string]any{"type": "const", "ops": "${property:zv_c11_a.properties#ops}", "duration": "${env:ZV_C11_DUR}"}, "startup": map[string]any{"type": "once", "times": 1}},
+			{"gun": map[string]any{"type": "http", "target": "${property:zv_c11_b.properties#target}", "ssl": "${env:ZV_C11_SSL}"}, "rps": map[string]any{"type": "once", "times": "${property:zv_c11_b.properties#times}"}, "startup": map[string]any{"type": "once", "times": 2}},
+		}
+	}
 	type outcome struct {
 		i    int
 		err  error
@@ -308,7 +320,7 @@ func (r *run) decodeScenario(x *vs.X) func(end, msg string) error {
 func (r *run) scenario(x *vs.X) func(end, msg string) error {
 	c := r.cell
 	r.res = EngRes{Done: make(chan struct{})}
-	if c.Pool == "decode" {
+	if c.Pool == "decode" || c.Pool == "decode-placeholders" {
 		return r.decodeScenario(x)
 	}
 	var h struct {
@@ -469,6 +481,7 @@ func cells(thorough bool) []Cell {
 		}
 	}
 	out = append(out, Cell{Pool: "decode", Result: "none", Instances: 2, Bound: 1})
+	out = append(out, Cell{Pool: "decode-placeholders", Result: "none", Instances: 2, Bound: 1})
 	return out
 }
 
